@@ -269,6 +269,14 @@ Proof.
         rewrite updn_other; auto. eapply Hother; eauto.
 Qed.
 
+Lemma single_user (l : list tid) t x : Z.of_nat (length l) - 1 = 0 -> In t l -> In x l -> x = t.
+Proof.
+  destruct l as [|a [|b l]]; cbn [length In]; intros H0 H1 H2.
+  - contradiction.
+  - destruct H1 as [|[]], H2 as [|[]]; congruence.
+  - lia.
+Qed.
+
 Lemma step_unlockA s t k s' : minv s -> mstep s (MUnlockA t k) = Some s' -> minv s'.
 Proof.
   intros I H. unfold mstep in H. rewrite (i_panic s I) in H.
@@ -302,16 +310,15 @@ Proof.
     intro E. destruct (i_use s I x k2 o2 E) as (it2 & E2 & E3).
     destruct (Z.eqb_spec k2 k) as [->|Hk]; [|eauto].
     rewrite Eit in E2; inversion E2; subst it2.
-    destruct (Z.eqb_spec (it_len it - 1) 0) as [Hz|Hz]; [|eexists; split; eauto].
+    destruct (Z.eqb_spec (it_len it - 1) 0) as [Hz|Hz]; [|eexists; split; [reflexivity | cbn; congruence]].
     exfalso. assert (Hx' : In x (it_users it)) by (apply Hmem; congruence).
-    destruct (it_users it) as [|a [|b l]]; cbn in *; try contradiction; try lia.
-    destruct Hin as [|[]], Hx' as [|[]]; congruence.
+    apply Hx. apply (single_user (it_users it)); auto. rewrite <- Hlen. exact Hz.
   - intros k1 k2 it1 it2. rewrite !upd_eq.
     destruct (Z.eqb_spec k1 k) as [->|H1], (Z.eqb_spec k2 k) as [->|H2]; auto.
     + destruct (Z.eqb_spec (it_len it - 1) 0); [discriminate|].
-      intros E1 E2; inversion E1; subst it1; cbn. intro E3. symmetry. eapply (i_inj s I); eauto.
+      intros E1 E2; inversion E1; subst it1; cbn. intro E3. symmetry. eapply (i_inj s I); eauto; congruence.
     + destruct (Z.eqb_spec (it_len it - 1) 0); [discriminate|].
-      intros E1 E2; inversion E2; subst it2; cbn. intro E3. eapply (i_inj s I); eauto.
+      intros E1 E2; inversion E2; subst it2; cbn. intro E3. eapply (i_inj s I); eauto; congruence.
     + apply (i_inj s I).
   - intros x o2. rewrite upd_eq. destruct (Z.eqb_spec x t) as [->|]; [|apply (i_rel s I)].
     intro E; inversion E; subst. lia.
@@ -327,7 +334,7 @@ Proof.
     + destruct (Z.eqb_spec t1 t) as [->|]; auto. rewrite Ept. cbn in *. congruence.
     + destruct (Z.eqb_spec t2 t) as [->|]; auto. rewrite Ept. cbn in *. congruence.
   - intros k2. rewrite (i_log s I k2), upd_eq. destruct (Z.eqb_spec k2 k) as [->|]; auto.
-    rewrite Eit. destruct (Z.eqb_spec (it_len it - 1) 0) as [Hz|Hz]; cbn; auto.
+    rewrite Eit. destruct (Z.eqb_spec (it_len it - 1) 0) as [Hz|Hz]; cbn; [|now rewrite Eo].
     (* last user leaves: nobody is parked on the entry's mutex *)
     f_equal. apply no_elem_nil. intros x Hx. apply (i_q s I) in Hx.
     destruct (mpcs s x) as [| |kx ox| |] eqn:Ex; cbn in Hx; try contradiction. subst ox.
@@ -335,6 +342,180 @@ Proof.
     destruct (i_use s I x kx _ Hpx) as (itx & Ex1 & Ex2).
     assert (kx = k) by (eapply (i_inj s I); eauto). subst kx.
     assert (Hx' : In x (it_users it)) by (apply Hmem; congruence).
-    destruct (it_users it) as [|a [|b l]]; cbn in *; try contradiction; try lia.
-    destruct Hin as [|[]], Hx' as [|[]]; congruence.
+    assert (x = t) by (apply (single_user (it_users it)); auto; rewrite <- Hlen; exact Hz).
+    subst x. rewrite Ept in Ex. discriminate.
 Qed.
+
+Lemma step_unlockB s t s' : minv s -> mstep s (MUnlockB t) = Some s' -> minv s'.
+Proof.
+  intros I H. unfold mstep in H. rewrite (i_panic s I) in H.
+  destruct (mpcs s t) as [| | | |o] eqn:Ept; try discriminate.
+  assert (Hown : powns (mpcs s t) o) by (rewrite Ept; reflexivity).
+  assert (Hsl : slot (objs s o) = true).
+  { destruct (slot (objs s o)) eqn:E; auto. destruct (i_free s I o E) as [_ B]. exfalso. eapply B; eauto. }
+  assert (Honly : forall x, powns (mpcs s x) o -> x = t) by (intros x Hx; eapply (i_own s I); eauto).
+  unfold ch_recv in H. rewrite Hsl in H.
+  destruct (sendq (objs s o)) as [|t' q] eqn:Eq.
+  - (* nobody waits *)
+    inversion H; subst s'; clear H. constructor; cbn.
+    + reflexivity.
+    + intros k2 it2 E2. destruct (i_item s I k2 it2 E2) as (A1 & A2 & A3 & A4 & A5).
+      repeat (split; [assumption|]). intros x. rewrite A5, upd_eq.
+      destruct (Z.eqb_spec x t) as [->|]; [rewrite Ept; cbn; tauto | tauto].
+    + intros x k2 o2. rewrite upd_eq. destruct (Z.eqb_spec x t); [discriminate | apply (i_use s I)].
+    + apply (i_inj s I).
+    + intros x o2. rewrite upd_eq. destruct (Z.eqb_spec x t); [discriminate | apply (i_rel s I)].
+    + intros o2 x. rewrite updn_eq, upd_eq. destruct (Nat.eqb_spec o2 o) as [->|Ho]; cbn.
+      * destruct (Z.eqb_spec x t) as [->|Hx]; cbn; [tauto|].
+        rewrite <- (i_q s I), Eq. tauto.
+      * destruct (Z.eqb_spec x t) as [->|Hx]; [|apply (i_q s I)].
+        rewrite (i_q s I), Ept. cbn. tauto.
+    + intros o2. rewrite updn_eq. destruct (Nat.eqb_spec o2 o); [constructor | apply (i_nd s I)].
+    + intros o2. rewrite updn_eq. destruct (Nat.eqb_spec o2 o) as [->|Ho]; cbn.
+      * intros _. split; auto. intros x. rewrite upd_eq. destruct (Z.eqb_spec x t) as [->|Hx]; cbn; auto.
+      * intros Hs. destruct (i_free s I o2 Hs) as [A B]. split; auto.
+        intros x. rewrite upd_eq. destruct (Z.eqb_spec x t); cbn; auto.
+    + intros o2. rewrite updn_eq. destruct (Nat.eqb_spec o2 o) as [->|Ho]; cbn; [discriminate|].
+      intros Hs. destruct (i_busy s I o2 Hs) as [x Hx]. exists x. rewrite upd_eq.
+      destruct (Z.eqb_spec x t) as [->|]; auto. rewrite Ept in Hx. cbn in Hx. congruence.
+    + intros o2 t1 t2. rewrite !upd_eq.
+      destruct (Z.eqb_spec t1 t), (Z.eqb_spec t2 t); cbn; try tauto. apply (i_own s I).
+    + intros k2. rewrite (i_log s I k2). destruct (items s k2) as [it2|]; auto.
+      rewrite updn_eq. destruct (Nat.eqb_spec (it_obj it2) o) as [->|]; auto. now rewrite Eq.
+  - (* hand-over to the oldest waiter *)
+    assert (Hw' : waits (mpcs s t') o) by (apply (i_q s I); rewrite Eq; now left).
+    destruct (mpcs s t') as [| |k' o'| |] eqn:Ept'; cbn in Hw'; try contradiction. subst o'.
+    assert (Hne : t' <> t) by congruence.
+    pose proof (i_nd s I o) as Hnd. rewrite Eq in Hnd. inversion Hnd as [|? ? Hnin Hnd']; subst.
+    assert (Hpk' : pk (mpcs s t') = Some (k', o)) by now rewrite Ept'.
+    destruct (i_use s I t' k' o Hpk') as (it & Eit & Eo).
+    assert (Hother : forall k2 it2, items s k2 = Some it2 -> k2 <> k' -> it_obj it2 <> o).
+    { intros k2 it2 E2 Hk Ho. apply Hk. eapply (i_inj s I); eauto. congruence. }
+    inversion H; subst s'; clear H. constructor; cbn.
+    + reflexivity.
+    + intros k2 it2 E2. destruct (i_item s I k2 it2 E2) as (A1 & A2 & A3 & A4 & A5).
+      repeat (split; [assumption|]). intros x. rewrite A5, !upd_eq.
+      destruct (Z.eqb_spec x t') as [->|]; [rewrite Hpk'; cbn; tauto|].
+      destruct (Z.eqb_spec x t) as [->|]; [rewrite Ept; cbn; tauto | tauto].
+    + intros x k2 o2. rewrite !upd_eq. destruct (Z.eqb_spec x t') as [->|].
+      * cbn. intro E; inversion E; subst. eauto.
+      * destruct (Z.eqb_spec x t); [discriminate | apply (i_use s I)].
+    + apply (i_inj s I).
+    + intros x o2. rewrite !upd_eq. destruct (Z.eqb_spec x t'); [discriminate|].
+      destruct (Z.eqb_spec x t); [discriminate | apply (i_rel s I)].
+    + intros o2 x. rewrite updn_eq, !upd_eq. destruct (Nat.eqb_spec o2 o) as [->|Ho]; cbn.
+      * destruct (Z.eqb_spec x t') as [->|Hx']; cbn; [tauto|].
+        destruct (Z.eqb_spec x t) as [->|Hx]; cbn.
+        -- split; [|tauto]. intro Hi. assert (Hq : In t (t' :: q)) by now right.
+           rewrite <- Eq in Hq. apply (i_q s I) in Hq. rewrite Ept in Hq. exact Hq.
+        -- rewrite <- (i_q s I), Eq. cbn. split; [auto | intros [|]; [congruence|auto]].
+      * destruct (Z.eqb_spec x t') as [->|Hx']; cbn.
+        -- rewrite (i_q s I), Ept'. cbn. intuition congruence.
+        -- destruct (Z.eqb_spec x t) as [->|Hx]; [|apply (i_q s I)].
+           rewrite (i_q s I), Ept. cbn. tauto.
+    + intros o2. rewrite updn_eq. destruct (Nat.eqb_spec o2 o); [exact Hnd' | apply (i_nd s I)].
+    + intros o2. rewrite updn_eq. destruct (Nat.eqb_spec o2 o) as [->|Ho]; cbn; [discriminate|].
+      intros Hs. destruct (i_free s I o2 Hs) as [A B]. split; auto.
+      intros x. rewrite !upd_eq. destruct (Z.eqb_spec x t') as [->|]; cbn; [congruence|].
+      destruct (Z.eqb_spec x t); cbn; auto.
+    + intros o2. rewrite updn_eq. destruct (Nat.eqb_spec o2 o) as [->|Ho]; cbn; intros Hs.
+      * exists t'. rewrite upd_same. reflexivity.
+      * destruct (i_busy s I o2 Hs) as [x Hx]. exists x. rewrite !upd_eq.
+        destruct (Z.eqb_spec x t') as [->|]; [rewrite Ept' in Hx; destruct Hx|].
+        destruct (Z.eqb_spec x t) as [->|]; auto. rewrite Ept in Hx. cbn in Hx. congruence.
+    + intros o2 t1 t2. rewrite !upd_eq.
+      destruct (Z.eqb_spec t1 t') as [->|N1], (Z.eqb_spec t2 t') as [->|N2]; cbn; auto.
+      * destruct (Z.eqb_spec t2 t) as [->|N3]; cbn; [tauto|]. intros <- H2. exfalso. apply N3. now apply Honly.
+      * destruct (Z.eqb_spec t1 t) as [->|N3]; cbn; [tauto|]. intros H1 <-. exfalso. apply N3. now apply Honly.
+      * destruct (Z.eqb_spec t1 t), (Z.eqb_spec t2 t); cbn; try tauto. apply (i_own s I).
+    + intros k2. rewrite !upd_eq. destruct (Z.eqb_spec k2 k') as [->|Hk].
+      * rewrite (i_log s I k'), Eit, Eo, updn_same, Eq. cbn. now rewrite <- app_assoc.
+      * rewrite (i_log s I k2). destruct (items s k2) as [it2|] eqn:E2; auto.
+        rewrite updn_other; auto. eapply Hother; eauto.
+Qed.
+
+Lemma minv_step s e s' : minv s -> mstep s e = Some s' -> minv s'.
+Proof.
+  destruct e; eauto using step_lockA, step_lockB, step_unlockA, step_unlockB.
+Qed.
+
+Lemma minv_run es : forall s s', minv s -> mrun s es = Some s' -> minv s'.
+Proof.
+  induction es as [|e es IH]; cbn; intros s s' Hi Hr.
+  - inversion Hr; subst; exact Hi.
+  - unfold mrun in Hr; cbn in Hr. destruct (mstep s e) as [s1|] eqn:E; [|discriminate].
+    eapply IH; [eapply minv_step; eauto | exact Hr].
+Qed.
+
+Lemma between_pk s t k : Model_FifoMap.between s t k <-> exists o, pk (mpcs s t) = Some (k, o).
+Proof.
+  unfold Model_FifoMap.between. split.
+  - intros [o [H|[H|H]]]; exists o; rewrite H; reflexivity.
+  - intros [o H]. exists o. destruct (mpcs s t); cbn in H; inversion H; subst; auto.
+Qed.
+
+Lemma fifomap_no_panic_all : forall es s, mrun minit es = Some s -> mpanic s = false.
+Proof. intros es s Hr. exact (i_panic s (minv_run es _ _ minv_init Hr)). Qed.
+
+Lemma fifomap_excl_all : forall es s k, mrun minit es = Some s ->
+  excl (fun t => exists o, mpcs s t = MHold k o) (fun _ => False).
+Proof.
+  intros es s k Hr. pose proof (minv_run es _ _ minv_init Hr) as I.
+  split; [|intros _ _ _ []]. intros t1 t2 [o1 H1] [o2 H2].
+  assert (P1 : pk (mpcs s t1) = Some (k, o1)) by now rewrite H1.
+  assert (P2 : pk (mpcs s t2) = Some (k, o2)) by now rewrite H2.
+  destruct (i_use s I _ _ _ P1) as (it1 & E1 & F1). destruct (i_use s I _ _ _ P2) as (it2 & E2 & F2).
+  assert (Ho : o1 = o2) by congruence.
+  apply (i_own s I o1); [rewrite H1 | rewrite H2]; cbn; congruence.
+Qed.
+
+Lemma fifomap_order_all : forall es s k, mrun minit es = Some s -> fifo (karr s k) (kgrants s k).
+Proof.
+  intros es s k Hr. pose proof (minv_run es _ _ minv_init Hr) as I. eexists. apply (i_log s I k).
+Qed.
+
+Lemma fifomap_count_all : forall es s k, mrun minit es = Some s ->
+  match items s k with
+  | Some it => it_len it = Z.of_nat (length (it_users it)) /\ (it_len it >= 1)%Z /\
+               NoDup (it_users it) /\ (forall t, In t (it_users it) <-> Model_FifoMap.between s t k)
+  | None => forall t, ~ Model_FifoMap.between s t k
+  end.
+Proof.
+  intros es s k Hr. pose proof (minv_run es _ _ minv_init Hr) as I.
+  destruct (items s k) as [it|] eqn:Eit.
+  - destruct (i_item s I k it Eit) as (A1 & A2 & A3 & A4 & A5).
+    split; [exact A2|]. split; [destruct (it_users it); [contradiction | cbn [length] in A2; lia]|].
+    split; [exact A4|]. intros t. rewrite A5, between_pk. split; [eauto|].
+    intros [o Ho]. destruct (i_use s I t k o Ho) as (it2 & E2 & F2). congruence.
+  - intros t Hb. apply between_pk in Hb as [o Ho].
+    destruct (i_use s I t k o Ho) as (it2 & E2 & F2). congruence.
+Qed.
+
+Lemma fifomap_no_leak_all : forall es s k, mrun minit es = Some s ->
+  no_leak (present s k) (fun t => Model_FifoMap.between s t k).
+Proof.
+  intros es s k Hr. pose proof (fifomap_count_all es s k Hr) as Hc. unfold no_leak, present.
+  destruct (items s k) as [it|].
+  - destruct Hc as (Hl & Hge & _ & Hm). split; [intros _|reflexivity].
+    destruct (it_users it) as [|t l] eqn:E.
+    + exfalso. cbn [length] in Hl. lia.
+    + exists t. apply Hm. now left.
+  - split; [discriminate|]. intros [t Ht]. exfalso. eapply Hc; eauto.
+Qed.
+
+(* non-vacuity: 1 holds key 5, 2 queues; 1's Unlock keeps the entry (2 is counted) and hands
+   over; 2's Unlock deletes it; 3 re-creates it with a fresh mutex *)
+Example fifomap_example :
+  match mrun minit [MLockA 1 5; MLockB 1; MLockA 2 5; MLockB 2; MUnlockA 1 5] with
+  | Some s => present s 5 = true /\ mpcs s 2 = MWait 5 0%nat /\
+      match mrun s [MUnlockB 1; MUnlockA 2 5] with
+      | Some s2 => present s2 5 = false /\ mpcs s2 2 = MRel 0%nat /\
+          match mrun s2 [MLockA 3 5; MLockB 3; MUnlockB 2] with
+          | Some s3 => present s3 5 = true /\ mpcs s3 3 = MHold 5 1%nat /\ kgrants s3 5 = [1; 2; 3]
+          | None => False
+          end
+      | None => False
+      end
+  | None => False
+  end.
+Proof. vm_compute. repeat split. Qed.
